@@ -11,6 +11,7 @@ import (
 
 	"pgregory.net/rapid"
 
+	"github.com/scrapli/scrapligo/logging"
 	"github.com/scrapli/scrapligo/transport"
 
 	"verifharness/ev"
@@ -338,10 +339,17 @@ func runTCP(c Case) ev.Verdict {
 	}()
 
 	tt, _ := transport.NewTelnetTransport(&transport.TelnetArgs{})
-	args := &transport.Args{
-		Host: "127.0.0.1", Port: ln.Addr().(*net.TCPAddr).Port,
-		TimeoutSocket: time.Duration(c.TimeoutMS) * time.Millisecond, ReadSize: c.ReadSize,
+	// built the way the library builds them (they carry a logging instance the transport may use)
+	args, aerr := transport.NewArgs(quietLogger(), "127.0.0.1")
+	if aerr != nil {
+		close(stop)
+
+		return ev.Fail("NewArgs: %v", aerr)
 	}
+
+	args.Port = ln.Addr().(*net.TCPAddr).Port
+	args.TimeoutSocket = time.Duration(c.TimeoutMS) * time.Millisecond
+	args.ReadSize = c.ReadSize
 
 	if err = tt.Open(args); err != nil {
 		close(stop)
@@ -391,6 +399,12 @@ func runTCP(c Case) ev.Verdict {
 	}
 
 	return judge(c, res.replies, gotData)
+}
+
+func quietLogger() *logging.Instance {
+	l, _ := logging.NewInstance()
+
+	return l
 }
 
 var tcpProp = &ev.Prop[Case]{ID: "C15", Name: "tcp", Gen: gen, Run: runTCP}
